@@ -1079,6 +1079,19 @@ Qed.
 Lemma bits_val_testbit bs i : (i < length bs)%nat -> N.testbit (bits_val bs) (N.of_nat i) = nth i bs false.
 Proof. intros H. rewrite <- (nbits_testbit (length bs) (bits_val bs) i H). now rewrite nbits_bits_val. Qed.
 
+Lemma ty_ok_tuple l : ty_ok (TTuple l) = forallb ty_ok l && (2 <=? ty_size (TTuple l))%nat.
+Proof. reflexivity. Qed.
+
+Lemma sub_type_ok : forall p t t', ty_ok t = true -> sub_type t p = Some t' -> ty_ok t' = true.
+Proof.
+  induction p as [|i q IH]; intros t t' Hok H; cbn [sub_type] in H; [now injection H as <-|].
+  destruct t as [|w|i0 f0| |l]; try discriminate;
+    try (destruct (_ <? _)%nat; [|discriminate]; now apply (IH TBool)).
+  destruct (nth_error l i) as [ti|] eqn:E; [|discriminate]. apply (IH ti); [|exact H].
+  rewrite ty_ok_tuple in Hok. apply andb_true_iff in Hok as [Hok _]. rewrite forallb_forall in Hok.
+  apply Hok. eapply nth_error_In; eassumption.
+Qed.
+
 Section Sound.
   Variable num : sname -> nat.
   Variable rho : nat -> bool.
@@ -1155,23 +1168,28 @@ Section Sound.
     - rewrite <- (map_beval_sym (s :: s' :: bv)), <- (flat_syms (s :: s' :: bv)). reflexivity.
   Qed.
 
-  Lemma trans_sub_sound G V x p r v0 v : env_ok G V -> env_canon G -> sub_scalar G (ESub x p) = true ->
+  Definition env_tyok (G : env) : Prop := forall x t bv, lookup G x = Some (t, bv) -> ty_ok t = true.
+
+  Lemma trans_sub_sound G V x p r v0 v : env_ok G V -> env_canon G -> env_tyok G ->
     trans_sub num G x p = Some r -> lookup V x = Some v0 -> sub_val v0 p = Some v -> sem rho r v.
   Proof.
-    intros Hok Hcan Hsc Ht Hv0 Hv. unfold trans_sub in Ht. cbn [sub_scalar] in Hsc.
+    intros Hok Hcan Htok Ht Hv0 Hv. unfold trans_sub in Ht.
     destruct p as [|i q]; [discriminate|]. set (p := i :: q) in *.
     destruct (lookup G x) as [[t bv]|] eqn:E; [|discriminate].
     destruct (Hok _ _ _ E) as (v' & Hv' & Hd). rewrite Hv0 in Hv'. injection Hv' as <-.
     rewrite (Hcan _ _ _ E) in Hd.
-    apply obind_some in Ht as (t' & Hty & Ht). rewrite Hty in Hsc.
+    apply obind_some in Ht as (t' & Hty & Ht).
     pose proof (sub_walk p t [x] v0 t' v Hd Hty Hv) as Hw. change ([x] ++ p) with (x :: p) in Hw.
-    assert (F : is_qtype t' = true ->
-              map (beval rho) (flat (Nd (map (fun s => L (sym num s)) (bit_names (x :: p) (ty_size t')))))
-              = map rbit (arg_names (x :: p) t')).
-    { intros Q. rewrite flat_syms, map_beval_sym. destruct t'; try discriminate; reflexivity. }
-    unfold sem, den. destruct (is_qtype t') eqn:Q; injection Ht as <-; cbn [fst snd].
-    - rewrite (F eq_refl). exact Hw.
-    - destruct t'; try discriminate. exact Hw.
+    pose proof (sub_type_ok p t t' (Htok _ _ _ E) Hty) as Ok'.
+    assert (Hr : forall T, T = t' -> T <> TBool -> T <> TTuple [] ->
+              r = (T, Nd (map (fun s => L (sym num s)) (arg_names (x :: p) T)))).
+    { intros T -> N1 N2. destruct t' as [|w|i0 f0| |[|a l]]; try congruence; now injection Ht as <-. }
+    unfold sem, den. destruct t' as [|w|i0 f0| |[|a l]]; try discriminate Ok'.
+    - injection Ht as <-. exact Hw.
+    - rewrite (Hr _ eq_refl) by discriminate. cbn [fst snd]. rewrite flat_syms, map_beval_sym. exact Hw.
+    - rewrite (Hr _ eq_refl) by discriminate. cbn [fst snd]. rewrite flat_syms, map_beval_sym. exact Hw.
+    - rewrite (Hr _ eq_refl) by discriminate. cbn [fst snd]. rewrite flat_syms, map_beval_sym. exact Hw.
+    - rewrite (Hr _ eq_refl) by discriminate. cbn [fst snd]. rewrite flat_syms, map_beval_sym. exact Hw.
   Qed.
 
   (* ---- Tuple ---- *)
@@ -1233,17 +1251,17 @@ Section Main.
   Variables (G : env) (V : venv).
   Hypothesis Hok : env_ok num rho G V.
   Hypothesis Hcan : env_canon G.
+  Hypothesis Htok : env_tyok G.
 
   Definition sound_at (e : pexp) : Prop :=
-    forall r v, sub_scalar G e = true -> trans_exp num G e = Some r -> eval_exp V e = Some v -> sem rho r v.
+    forall r v, trans_exp num G e = Some r -> eval_exp V e = Some v -> sem rho r v.
 
-  Lemma trans_list_sound l : Forall sound_at l -> forallb (sub_scalar G) l = true ->
+  Lemma trans_list_sound l : Forall sound_at l ->
     forall rs vs, trans_list num G l = Some rs -> eval_list V l = Some vs -> Forall2 (sem rho) rs vs.
   Proof.
-    induction 1 as [|e l He _ IH]; intros Hsc rs vs Ht Hv; cbn [trans_list eval_list] in Ht, Hv.
+    induction 1 as [|e l He _ IH]; intros rs vs Ht Hv; cbn [trans_list eval_list] in Ht, Hv.
     - injection Ht as <-. injection Hv as <-. constructor.
-    - cbn [forallb] in Hsc. apply andb_true_iff in Hsc as [S1 S2].
-      destruct (trans_exp num G e) as [a|] eqn:Ea; [|discriminate].
+    - destruct (trans_exp num G e) as [a|] eqn:Ea; [|discriminate].
       destruct (trans_list num G l) as [b|] eqn:Eb; [|discriminate]. injection Ht as <-.
       destruct (eval_exp V e) as [va|] eqn:Eva; [|discriminate].
       destruct (eval_list V l) as [vb|] eqn:Evb; [|discriminate]. injection Hv as <-.
@@ -1253,7 +1271,7 @@ Section Main.
   Theorem trans_exp_sound_at : forall e, sound_at e.
   Proof.
     induction e as [x|x p|op l IH|op a IHa|c t f IHc IHt IHf|c|l|l IH|op a b IHa IHb|op a b IHa IHb|t c|a IHa|a IHa|]
-      using pexp_ind2; intros r v Hsc Ht Hv.
+      using pexp_ind2; intros r v Ht Hv.
     - cbn [eval_exp] in Hv. eapply trans_name_sound; eassumption.
     - cbn [eval_exp] in Hv. cbn [trans_exp] in Ht.
       destruct p as [|i q]; [discriminate|]. apply obind_some in Hv as (v0 & Hv0 & Hv).
@@ -1261,13 +1279,12 @@ Section Main.
     - change (trans_exp num G (EBoolOp op l)) with (obind (trans_list num G l) (trans_boolop op)) in Ht.
       change (eval_exp V (EBoolOp op l)) with (obind (eval_list V l) (eval_boolop op)) in Hv.
       apply obind_some in Ht as (rs & Hrs & Ht). apply obind_some in Hv as (vs & Hvs & Hv).
-      cbn [sub_scalar] in Hsc. eapply trans_boolop_sound; try eassumption.
+      eapply trans_boolop_sound; try eassumption.
       eapply trans_list_sound; eassumption.
-    - cbn [trans_exp] in Ht. cbn [eval_exp] in Hv. cbn [sub_scalar] in Hsc.
+    - cbn [trans_exp] in Ht. cbn [eval_exp] in Hv. 
       apply obind_some in Ht as (ra & Hra & Ht). apply obind_some in Hv as (va & Hva & Hv).
       eapply trans_un_sound; try eassumption. now apply IHa.
-    - cbn [trans_exp] in Ht. cbn [eval_exp] in Hv. cbn [sub_scalar] in Hsc.
-      apply andb_true_iff in Hsc as [Hsc S3]. apply andb_true_iff in Hsc as [S1 S2].
+    - cbn [trans_exp] in Ht. cbn [eval_exp] in Hv. 
       apply obind_some in Ht as (rc & Hrc & Ht). apply obind_some in Ht as (rt & Hrt & Ht).
       apply obind_some in Ht as (rf & Hrf & Ht).
       apply obind_some in Hv as (vc & Hvc & Hv). apply obind_some in Hv as (vt & Hvt & Hv).
@@ -1282,21 +1299,21 @@ Section Main.
         (option_map (fun rs => (TTuple (map fst rs), Nd (map snd rs))) (trans_list num G l)) in Ht.
       change (eval_exp V (ETuple l)) with (option_map VT (eval_list V l)) in Hv.
       apply option_map_some in Ht as (rs & Hrs & ->). apply option_map_some in Hv as (vs & Hvs & ->).
-      cbn [sub_scalar] in Hsc. apply tuple_sound. eapply trans_list_sound; eassumption.
-    - cbn [trans_exp] in Ht. cbn [eval_exp] in Hv. cbn [sub_scalar] in Hsc. apply andb_true_iff in Hsc as [S1 S2].
+      apply tuple_sound. eapply trans_list_sound; eassumption.
+    - cbn [trans_exp] in Ht. cbn [eval_exp] in Hv.
       apply obind_some in Ht as (ra & Hra & Ht). apply obind_some in Ht as (rb & Hrb & Ht).
       apply obind_some in Hv as (va & Hva & Hv). apply obind_some in Hv as (vb & Hvb & Hv).
       eapply trans_cmp_sound; try eassumption; [now apply IHa|now apply IHb].
-    - cbn [trans_exp] in Ht. cbn [eval_exp] in Hv. cbn [sub_scalar] in Hsc. apply andb_true_iff in Hsc as [S1 S2].
+    - cbn [trans_exp] in Ht. cbn [eval_exp] in Hv.
       apply obind_some in Ht as (ra & Hra & Ht). apply obind_some in Ht as (rb & Hrb & Ht).
       apply obind_some in Hv as (va & Hva & Hv). apply obind_some in Hv as (vb & Hvb & Hv).
       eapply trans_bin_sound; try eassumption; [now apply IHa|now apply IHb].
     - cbn [trans_exp] in Ht. cbn [eval_exp] in Hv. apply lift_some in Ht as (te & Ht & ->).
       eapply cast_const_sound; eassumption.
-    - cbn [trans_exp] in Ht. cbn [eval_exp] in Hv. cbn [sub_scalar] in Hsc.
+    - cbn [trans_exp] in Ht. cbn [eval_exp] in Hv. 
       apply obind_some in Ht as (ra & Hra & Ht). apply obind_some in Hv as (va & Hva & Hv).
       eapply trans_int_sound; try eassumption. now apply IHa.
-    - cbn [trans_exp] in Ht. cbn [eval_exp] in Hv. cbn [sub_scalar] in Hsc.
+    - cbn [trans_exp] in Ht. cbn [eval_exp] in Hv. 
       apply obind_some in Ht as (ra & Hra & Ht). apply obind_some in Hv as (va & Hva & Hv).
       eapply trans_float_sound; try eassumption. now apply IHa.
     - discriminate.
@@ -1305,9 +1322,9 @@ End Main.
 
 (* every expression of the language, every environment, every assignment *)
 Theorem trans_exp_sound num rho G V e r v :
-  env_ok num rho G V -> env_canon G -> sub_scalar G e = true ->
+  env_ok num rho G V -> env_canon G -> env_tyok G ->
   trans_exp num G e = Some r -> eval_exp V e = Some v -> den rho r = Some v.
-Proof. intros Hok Hcan Hsc Ht Hv. exact (trans_exp_sound_at num rho G V Hok Hcan e r v Hsc Ht Hv). Qed.
+Proof. intros Hok Hcan Htok Ht Hv. exact (trans_exp_sound_at num rho G V Hok Hcan Htok e r v Ht Hv). Qed.
 
 (* ================================================================== *)
 (* statements                                                          *)
@@ -1359,22 +1376,235 @@ Proof.
       apply firstn_skipn.
 Qed.
 
-Lemma ret_regroup_sem rho r v : sem rho r v -> sem rho (ret_regroup r) v.
+Lemma regroup_value_type r : fst (regroup_value r) = fst r.
 Proof.
-  intros H. unfold ret_regroup. destruct r as [t tr]. cbn [fst snd].
-  destruct t as [| | | |[|a l]]; try exact H. destruct tr as [e|lv]; [exact H|].
-  destruct (all_leaves lv) as [bits|] eqn:E; [|exact H].
-  destruct (Nat.eqb_spec (ty_size (TTuple (a :: l))) (length bits)) as [Ln|]; [|exact H].
-  unfold sem, den in *. cbn [fst snd] in *. rewrite regroup_flat by congruence.
-  rewrite (all_leaves_map _ _ E) in H. change (Nd (map L bits)) with (of_list bits) in H.
-  now rewrite flat_of_list in H.
+  unfold regroup_value. destruct r as [t tr]. cbn [fst snd].
+  destruct t as [| | | |[|a l]]; try reflexivity. destruct tr; [reflexivity|].
+  now destruct (Nat.eqb _ _).
 Qed.
 
-Lemma ret_regroup_type r : fst (ret_regroup r) = fst r.
+Lemma regroup_value_sem rho r v : sem rho r v -> sem rho (regroup_value r) v.
 Proof.
-  unfold ret_regroup. destruct r as [t tr]. cbn [fst snd].
-  destruct t as [| | | |[|a l]]; try reflexivity. destruct tr; [reflexivity|].
-  destruct (all_leaves l0); [|reflexivity]. now destruct (Nat.eqb _ _).
+  intros H. unfold regroup_value. destruct r as [t tr]. cbn [fst snd].
+  destruct t as [| | | |[|a l]]; try exact H. destruct tr as [e|lv]; [exact H|].
+  unfold sem, den in *. cbn [fst snd] in *.
+  destruct (Nat.eqb_spec (ty_size (TTuple (a :: l))) (length (flat (Nd lv)))) as [Ln|Ln]; cbn [fst snd].
+  - now rewrite regroup_flat by congruence.
+  - now rewrite flat_of_list.
+Qed.
+
+(* ---- the names decompose_to_symbols gives ---- *)
+Lemma decompose_go_leaves base l : forall k,
+  map fst (decompose_go base (map L l) k) = map (fun i => base ++ [i]) (seq k (length l)).
+Proof.
+  induction l as [|e l IH]; intros k; cbn [map decompose_go decompose app length seq]; [reflexivity|].
+  now rewrite IH.
+Qed.
+
+Lemma decompose_of_list base l : map fst (decompose base (of_list l)) = bit_names base (length l).
+Proof. unfold of_list. rewrite decompose_nd. apply decompose_go_leaves. Qed.
+
+Lemma decompose_regroup : forall t base bits, length bits = ty_size t ->
+  map fst (decompose base (regroup t bits)) = arg_names base t.
+Proof.
+  induction t as [|w|i f| |l IH] using ty_ind2; intros base bits Hl;
+    try (cbn [regroup arg_names]; rewrite decompose_of_list; now rewrite Hl).
+  - destruct bits as [|b [|]]; try discriminate. reflexivity.
+  - rewrite regroup_tuple, decompose_nd, arg_names_tuple. cbn [ty_size] in Hl. generalize 0%nat. revert bits Hl.
+    induction IH as [|x l Hx _ IHl]; intros bits Hl k; cbn [regroup_go decompose_go names_go map] in *; [reflexivity|].
+    change (list_sum (ty_size x :: map ty_size l)) with (ty_size x + list_sum (map ty_size l))%nat in Hl.
+    rewrite map_app, Hx by (rewrite firstn_length; lia). f_equal. apply IHl. rewrite skipn_length. lia.
+Qed.
+
+(* ---- the shape of a translated value ---- *)
+(* a bool is a bare expression, a sized value a flat list (what decompose_to_symbols names
+   as translate_argument does) *)
+Definition wf_res (r : tres) : Prop :=
+  match fst r with
+  | TBool => exists e, snd r = L e
+  | TTuple _ => True
+  | _ => exists l, snd r = of_list l
+  end.
+
+Lemma wf_bool e : wf_res (TBool, L e).
+Proof. now exists e. Qed.
+
+Lemma wf_of_texp te : is_qtype (fst te) = true -> wf_res (of_texp te).
+Proof. unfold wf_res, of_texp. cbn [fst snd]. destruct (fst te); try discriminate; intros _; now eexists. Qed.
+
+Lemma wf_syms num T names : T <> TBool -> wf_res (T, Nd (map (fun s => L (sym num s)) names)).
+Proof.
+  intros N. unfold wf_res. cbn [fst snd].
+  assert (E : Nd (map (fun s => L (sym num s)) names) = of_list (map (sym num) names))
+    by (unfold of_list; now rewrite map_map).
+  destruct T; try exact I; try (eexists; exact E). congruence.
+Qed.
+
+Lemma zip_ite_leaves c : forall lt lf r, zip_ite c lt lf = Some r -> exists l, r = map L l.
+Proof.
+  induction lt as [|t lt IH]; intros [|f lf] r H; cbn [zip_ite] in H; try (injection H as <-; now exists []).
+  destruct (leaf t); [|discriminate]. destruct (leaf f); [|discriminate].
+  destruct (zip_ite c lt lf) as [r'|] eqn:E; [|discriminate]. injection H as <-.
+  destruct (IH _ _ E) as (l & ->). now exists (BIte c b b0 :: l).
+Qed.
+
+Lemma trans_boolop_wf op rs r : trans_boolop op rs = Some r -> wf_res r.
+Proof.
+  unfold trans_boolop. destruct (all_bool rs); [|discriminate]. intros H.
+  apply obind_some in H as (es & _ & H). apply option_map_some in H as (e & _ & ->). apply wf_bool.
+Qed.
+
+Lemma trans_un_wf op r0 r : trans_un op r0 = Some r -> wf_res r.
+Proof.
+  destruct op; cbn [trans_un]; [| |discriminate].
+  - destruct (fst r0); try discriminate. intros H. apply option_map_some in H as (e & _ & ->). apply wf_bool.
+  - destruct (is_qtype (fst r0)) eqn:Q; [|discriminate]. intros H. apply lift_some in H as (te' & H & ->).
+    apply option_map_some in H as (te & H & ->). apply wf_of_texp.
+    destruct (to_texp_some _ _ H) as [T _]. cbn [bitwise_not fst]. now rewrite T.
+Qed.
+
+Lemma trans_if_wf c t f r : trans_if c t f = Some r -> wf_res r.
+Proof.
+  unfold trans_if. destruct (fst c); try discriminate. intros H.
+  apply obind_some in H as (cb & _ & H). apply obind_some in H as ([t' f'] & _ & H).
+  destruct (fst t') eqn:T.
+  - apply obind_some in H as (a & _ & H). apply obind_some in H as (b & _ & H). injection H as <-. apply wf_bool.
+  - destruct (snd t'), (snd f'); try discriminate. apply option_map_some in H as (r0 & Hz & ->).
+    destruct (zip_ite_leaves _ _ _ _ Hz) as (lz & ->). unfold wf_res. cbn [fst snd]. now exists lz.
+  - destruct (snd t'), (snd f'); try discriminate. apply option_map_some in H as (r0 & Hz & ->).
+    destruct (zip_ite_leaves _ _ _ _ Hz) as (lz & ->). unfold wf_res. cbn [fst snd]. now exists lz.
+  - destruct (snd t'), (snd f'); try discriminate. apply option_map_some in H as (r0 & Hz & ->).
+    destruct (zip_ite_leaves _ _ _ _ Hz) as (lz & ->). unfold wf_res. cbn [fst snd]. now exists lz.
+  - destruct (snd t'), (snd f'); try discriminate. apply option_map_some in H as (r0 & Hz & ->). exact I.
+Qed.
+
+Lemma const_to_qtype_q c te : const_to_qtype c = Some te -> is_qtype (fst te) = true.
+Proof.
+  destruct c as [b|z|neg x|cs|]; cbn [const_to_qtype]; try discriminate.
+  - unfold const_int. destruct (const_to_qtype_int _) as [[w bits]|]; [|discriminate]. now intros [= <-].
+  - destruct (z <? 0)%Z; [discriminate|]. unfold const_int.
+    destruct (const_to_qtype_int _) as [[w bits]|]; [|discriminate]. now intros [= <-].
+  - destruct neg; [discriminate|]. unfold const_float.
+    destruct (const_float_search _ _) as [[[i f] bits]|]; [|discriminate]. now intros [= <-].
+  - unfold const_char. destruct cs as [|c [|]]; try discriminate. destruct (c <? 256); [|discriminate]. now intros [= <-].
+Qed.
+
+Lemma trans_const_wf c r : trans_const c = Some r -> wf_res r.
+Proof.
+  destruct c as [b|z|neg x|cs|]; cbn [trans_const].
+  - intros [= <-]. apply wf_bool.
+  - destruct (z <? 0)%Z; [discriminate|]. intros H. apply lift_some in H as (te & H & ->).
+    apply wf_of_texp. now apply const_to_qtype_q in H.
+  - destruct neg; [discriminate|]. intros H. apply lift_some in H as (te & H & ->).
+    apply wf_of_texp. now apply const_to_qtype_q in H.
+  - intros H. apply lift_some in H as (te & H & ->). apply wf_of_texp. now apply const_to_qtype_q in H.
+  - discriminate.
+Qed.
+
+Lemma cast_const_q t c te : cast_const t c = Some te -> is_qtype (fst te) = true.
+Proof.
+  unfold cast_const. destruct (known_type t); cbn [negb]; [|discriminate].
+  destruct t as [|w|i f| |l]; try discriminate; destruct c as [b|z|neg x|cs|]; try discriminate;
+    try (now intros [= <-]).
+  - destruct (z <? 0)%Z; [discriminate|]. now intros [= <-].
+  - destruct neg; [discriminate|]. now intros [= <-].
+  - unfold const_char. destruct cs as [|c [|]]; try discriminate. destruct (c <? 256); [|discriminate]. now intros [= <-].
+Qed.
+
+Lemma trans_cmp_leaf op l r res : trans_cmp op l r = Some res -> exists e, snd res = L e.
+Proof.
+  unfold trans_cmp. intros H.
+  assert (D : forall o : option tres, o = Some res ->
+            (forall x, o = Some x -> exists e, snd x = L e) -> exists e, snd res = L e) by (intros o E F; now apply F).
+  destruct (fst l) as [|wl|il fl| |[|a0 al]] eqn:Tl; destruct (fst r) as [|wr|ir fr| |[|b0 bl]] eqn:Tr;
+    try discriminate;
+    try (destruct (_ && _); [|discriminate];
+         apply obind_some in H as (o & _ & H); apply obind_some in H as (lt & _ & H);
+         apply obind_some in H as (rt & _ & H); apply obind_some in H as (r0 & _ & H);
+         destruct (snd r0) as [|e [|]]; try discriminate; injection H as <-; now exists e).
+  - apply obind_some in H as (a & _ & H). apply obind_some in H as (b & _ & H).
+    destruct op; try discriminate; injection H as <-; now eexists.
+  - destruct (negb _); [discriminate|].
+    destruct op; try discriminate; apply obind_some in H as (lb & _ & H); apply obind_some in H as (rb & _ & H);
+      apply obind_some in H as (c & _ & H); injection H as <-; now eexists.
+Qed.
+
+Lemma eval_cmp_vb op a b v : eval_cmp op a b = Some v -> exists x, v = VB x.
+Proof.
+  destruct a, b; cbn [eval_cmp]; try discriminate.
+  - destruct op; try discriminate; intros [= <-]; now eexists.
+  - intros H. apply option_map_some in H as (c & _ & ->). now eexists.
+  - destruct (fix_align _ _ _ _) as [[ia fa]|]; [|discriminate]. destruct (_ <? _)%nat; [|discriminate].
+    intros H. apply option_map_some in H as (c & _ & ->). now eexists.
+  - destruct op; try discriminate; intros H; apply option_map_some in H as (cc & _ & ->); now eexists.
+  - destruct (_ && _); [|discriminate]. destruct op; try discriminate; intros [= <-]; now eexists.
+Qed.
+
+(* the BinOp result is a bare bool expression, or a flat list built by a type method *)
+Lemma trans_bin_form op sh l r res : trans_bin op sh l r = Some res ->
+  (exists e, res = (TBool, L e)) \/ (exists te, res = of_texp te /\ ~ (fst l = TBool /\ fst r = TBool)).
+Proof.
+  unfold trans_bin. intros H.
+  destruct (is_bool (fst l) && is_bool (fst r)) eqn:B.
+  - left. destruct op; try (apply obind_some in H as (a & _ & H); apply obind_some in H as (b & _ & H);
+                            injection H as <-; now eexists).
+    all: apply andb_true_iff in B as [B1 B2]; destruct (fst l); try discriminate; destruct (fst r); try discriminate.
+  - right.
+    assert (NB : ~ (fst l = TBool /\ fst r = TBool)) by (intros [E1 E2]; rewrite E1, E2 in B; discriminate).
+    destruct ((is_qint (fst l) && is_qfixed (fst r)) || (is_qfixed (fst l) && is_qint (fst r))).
+    + destruct op; try discriminate. apply obind_some in H as (lt & _ & H). apply obind_some in H as (rt & _ & H).
+      apply lift_some in H as (r0 & _ & ->). now exists r0.
+    + destruct (is_qtype (fst l)); [|discriminate]. apply obind_some in H as (lt & _ & H).
+      destruct op; try discriminate;
+        try (apply obind_some in H as (rt & _ & H); apply lift_some in H as (r0 & _ & ->); now exists r0);
+        destruct sh as [[k|]|]; try discriminate; apply lift_some in H as (r0 & _ & ->); now exists r0.
+Qed.
+
+Lemma eval_bin_kind op sh a b v : eval_bin op sh a b = Some v ->
+  (exists x, v = VB x /\ exists p q, a = VB p /\ b = VB q) \/ is_qtype (type_of v) = true.
+Proof.
+  destruct a as [p|wl x|i1 f1 x| |], b as [q|wr y|i2 f2 y| |]; cbn [eval_bin]; try discriminate.
+  - intros H. left. destruct op; try discriminate; injection H as <-; eexists; (split; [reflexivity|]); now exists p, q.
+  - intros H. right. destruct op; try discriminate; try (injection H as <-; reflexivity).
+    + destruct (_ && _); [|discriminate]. now injection H as <-.
+    + destruct (_ && _); [|discriminate]. now injection H as <-.
+    + destruct sh as [[k|]|]; try discriminate. now injection H as <-.
+    + destruct sh as [[k|]|]; try discriminate. now injection H as <-.
+  - intros H. right. destruct op; try discriminate. now injection H as <-.
+  - intros H. right. destruct op; try discriminate. now injection H as <-.
+  - intros H. right. destruct (fix_align _ _ _ _) as [[i f]|]; [|discriminate].
+    destruct op; try discriminate; now injection H as <-.
+Qed.
+
+Lemma trans_int_wf r0 r : wf_res r0 -> trans_int r0 = Some r -> wf_res r.
+Proof.
+  intros W. unfold trans_int. destruct (fst r0) eqn:T; try discriminate.
+  - now intros [= <-].
+  - intros H. apply obind_some in H as (l & _ & H). destruct (existsb _ _); [|discriminate]. injection H as <-.
+    unfold wf_res. cbn [fst snd]. now eexists.
+Qed.
+
+Lemma trans_float_wf r0 r : wf_res r0 -> trans_float r0 = Some r -> wf_res r.
+Proof.
+  intros W. unfold trans_float. destruct (fst r0) eqn:T; try discriminate.
+  - intros H. apply obind_some in H as (l & _ & H). apply obind_some in H as (tf & Htf & H). injection H as <-.
+    destruct (qfixed_for_size_spec _ _ Htf) as (f & ->). apply wf_of_texp. rewrite fill_type. cbn [fst snd].
+    now destruct (_ <=? _)%nat.
+  - now intros [= <-].
+Qed.
+
+Lemma ret_coerce_wf rt r0 r : wf_res r0 -> ret_coerce rt r0 = Some r -> wf_res r.
+Proof.
+  intros W. unfold ret_coerce.
+  destruct (is_qtype (fst r0) && is_qtype rt && (bit_size (fst r0) <? bit_size rt)%nat) eqn:C1.
+  - intros H. apply option_map_some in H as (te & Hte & ->). apply wf_of_texp.
+    apply andb_true_iff in C1 as [C1 _]. apply andb_true_iff in C1 as [Q1 Q2].
+    destruct (to_texp_some _ _ Hte) as [T _]. rewrite fill_type. destruct (_ <=? _)%nat; [now rewrite T|exact Q2].
+  - destruct (is_qtype (fst r0) && is_qtype rt && (bit_size rt <? bit_size (fst r0))%nat) eqn:C2.
+    + intros H. apply option_map_some in H as (te & Hte & ->). apply wf_of_texp.
+      apply andb_true_iff in C2 as [C2 _]. apply andb_true_iff in C2 as [Q1 Q2].
+      destruct (to_texp_some _ _ Hte) as [T _]. rewrite crop_type. destruct (_ <=? _)%nat; [now rewrite T|exact Q2].
+    + destruct (ty_eq (fst r0) rt); [|discriminate]. now intros [= <-].
 Qed.
 
 (* the Return coercion *)
@@ -1460,24 +1690,126 @@ Proof.
   apply andb_true_iff in H as [H1 H2]. f_equal; [now apply S|now apply IH].
 Qed.
 
+Lemma to_exp_long num bv : (2 <= length bv)%nat ->
+  to_exp num bv = Some (Nd (map (fun s => L (sym num s)) bv)).
+Proof. destruct bv as [|a [|b r]]; cbn [length]; try lia. reflexivity. Qed.
+
+Section Wf.
+  Variable num : sname -> nat.
+  Variable rho : nat -> bool.
+  Variables (G : env) (V : venv).
+  Hypothesis Hok : env_ok num rho G V.
+  Hypothesis Hcan : env_canon G.
+  Hypothesis Htok : env_tyok G.
+
+  (* every translated value that has a meaning is shaped as its type *)
+  Theorem trans_exp_wf : forall e r v, trans_exp num G e = Some r -> eval_exp V e = Some v -> wf_res r.
+  Proof.
+    induction e as [x|x p|op l IH|op a IHa|c t f IHc IHt IHf|c|l|l IH|op a b IHa IHb|op a b IHa IHb|t c|a IHa|a IHa|]
+      using pexp_ind2; intros r v Ht Hv.
+    - (* Name *)
+      cbn [trans_exp] in Ht. destruct (lookup G x) as [[t bv]|] eqn:E; [|discriminate].
+      apply option_map_some in Ht as (tr & Hx & ->). pose proof (Hcan _ _ _ E) as ->. pose proof (Htok _ _ _ E) as Ok.
+      destruct (ty_eq t TBool) eqn:TB.
+      + apply ty_eq_true in TB. subst t. cbn in Hx. injection Hx as <-. apply wf_bool.
+      + apply ty_eq_false in TB.
+        assert (L2 : (2 <= length (arg_names [x] t))%nat).
+        { rewrite arg_names_length. destruct t as [|w|i f| |l]; try congruence; cbn [ty_ok] in Ok;
+            try (now apply Nat.leb_le in Ok). apply andb_true_iff in Ok as [_ Ok]. now apply Nat.leb_le in Ok. }
+        rewrite (to_exp_long num _ L2) in Hx. injection Hx as <-. now apply wf_syms.
+    - (* Subscript *)
+      cbn [trans_exp] in Ht. unfold trans_sub in Ht. destruct p as [|i q]; [discriminate|].
+      destruct (lookup G x) as [[t bv]|]; [|discriminate]. apply obind_some in Ht as (t' & _ & Ht).
+      set (p := i :: q) in *.
+      assert (F : (exists e, r = (TBool, L e)) \/ (exists l e, r = (TTuple l, e))
+                  \/ (exists T names, T <> TBool /\ r = (T, Nd (map (fun s => L (sym num s)) names)))).
+      { destruct t' as [|w|i0 f0| |[|a l]]; injection Ht as <-.
+        - left. now eexists.
+        - right. right. exists (TQint w), (arg_names (x :: p) (TQint w)). split; [discriminate|reflexivity].
+        - right. right. exists (TQfixed i0 f0), (arg_names (x :: p) (TQfixed i0 f0)). split; [discriminate|reflexivity].
+        - right. right. exists TQchar, (arg_names (x :: p) TQchar). split; [discriminate|reflexivity].
+        - right. left. now eexists; eexists.
+        - right. left. now eexists; eexists. }
+      destruct F as [(e & ->)|[(l & e & ->)|(T & names & NB & ->)]]; [apply wf_bool|exact I|now apply wf_syms].
+    - change (trans_exp num G (EBoolOp op l)) with (obind (trans_list num G l) (trans_boolop op)) in Ht.
+      apply obind_some in Ht as (rs & _ & Ht). now apply trans_boolop_wf in Ht.
+    - cbn [trans_exp] in Ht. apply obind_some in Ht as (ra & _ & Ht). now apply trans_un_wf in Ht.
+    - cbn [trans_exp] in Ht. apply obind_some in Ht as (rc & _ & Ht). apply obind_some in Ht as (rt & _ & Ht).
+      apply obind_some in Ht as (rf & _ & Ht). now apply trans_if_wf in Ht.
+    - cbn [trans_exp] in Ht. now apply trans_const_wf in Ht.
+    - cbn [trans_exp] in Ht. unfold trans_const_tup in Ht. apply option_map_some in Ht as (es & _ & ->). exact I.
+    - change (trans_exp num G (ETuple l)) with
+        (option_map (fun rs => (TTuple (map fst rs), Nd (map snd rs))) (trans_list num G l)) in Ht.
+      apply option_map_some in Ht as (rs & _ & ->). exact I.
+    - (* Compare: the result is a bare expression, and its value is a bool *)
+      pose proof (trans_exp_sound num rho G V _ r v Hok Hcan Htok Ht Hv) as Hs.
+      cbn [trans_exp] in Ht. cbn [eval_exp] in Hv.
+      apply obind_some in Ht as (ra & _ & Ht). apply obind_some in Ht as (rb & _ & Ht).
+      apply obind_some in Hv as (va & _ & Hv). apply obind_some in Hv as (vb & _ & Hv).
+      destruct (trans_cmp_leaf _ _ _ _ Ht) as (e & He). destruct (eval_cmp_vb _ _ _ _ Hv) as (x & ->).
+      apply sem_type in Hs. cbn [type_of] in Hs. unfold wf_res. rewrite <- Hs. now exists e.
+    - (* BinOp *)
+      pose proof (trans_exp_sound num rho G V _ r v Hok Hcan Htok Ht Hv) as Hs.
+      cbn [trans_exp] in Ht. cbn [eval_exp] in Hv.
+      apply obind_some in Ht as (ra & Hra & Ht). apply obind_some in Ht as (rb & Hrb & Ht).
+      apply obind_some in Hv as (va & Hva & Hv). apply obind_some in Hv as (vb & Hvb & Hv).
+      destruct (trans_bin_form _ _ _ _ _ Ht) as [(e & ->)|(te & -> & NB)]; [apply wf_bool|].
+      apply wf_of_texp. apply sem_type in Hs. unfold of_texp in Hs. cbn [fst] in Hs. rewrite <- Hs.
+      destruct (eval_bin_kind _ _ _ _ _ Hv) as [(x & -> & p & q & -> & ->)|Q]; [|exact Q].
+      exfalso. apply NB.
+      pose proof (trans_exp_sound num rho G V _ _ _ Hok Hcan Htok Hra Hva) as S1.
+      pose proof (trans_exp_sound num rho G V _ _ _ Hok Hcan Htok Hrb Hvb) as S2.
+      apply sem_type in S1, S2. cbn [type_of] in S1, S2. now split.
+    - cbn [trans_exp] in Ht. apply lift_some in Ht as (te & Ht & ->). apply wf_of_texp. now apply cast_const_q in Ht.
+    - cbn [trans_exp] in Ht. cbn [eval_exp] in Hv.
+      apply obind_some in Ht as (ra & Hra & Ht). apply obind_some in Hv as (va & Hva & _).
+      exact (trans_int_wf _ _ (IHa _ _ Hra Hva) Ht).
+    - cbn [trans_exp] in Ht. cbn [eval_exp] in Hv.
+      apply obind_some in Ht as (ra & Hra & Ht). apply obind_some in Hv as (va & Hva & _).
+      exact (trans_float_wf _ _ (IHa _ _ Hra Hva) Ht).
+    - discriminate.
+  Qed.
+End Wf.
+
+(* after the regrouping, decompose_to_symbols gives the names of the type *)
+Lemma regroup_canon rho x r v : sem rho r v -> wf_res r -> ty_ok (fst r) = true ->
+  map fst (decompose [x] (snd (regroup_value r))) = arg_names [x] (fst r).
+Proof.
+  intros Hs W Ok. destruct (decode_type _ _ _ Hs) as [_ Ln]. rewrite map_length in Ln.
+  unfold regroup_value, wf_res in *. destruct r as [t tr]. cbn [fst snd] in *.
+  destruct t as [|w|i f| |[|a l]].
+  - destruct W as (e & ->). reflexivity.
+  - destruct W as (l & ->). rewrite flat_of_list in Ln. cbn [snd]. rewrite decompose_of_list. now rewrite Ln.
+  - destruct W as (l & ->). rewrite flat_of_list in Ln. cbn [snd]. rewrite decompose_of_list. now rewrite Ln.
+  - destruct W as (l & ->). rewrite flat_of_list in Ln. cbn [snd]. rewrite decompose_of_list. now rewrite Ln.
+  - discriminate.
+  - rewrite ty_ok_tuple in Ok. apply andb_true_iff in Ok as [_ Ok]. apply Nat.leb_le in Ok.
+    destruct tr as [e|lv]; [change (length (flat (L e))) with 1%nat in Ln; lia|].
+    rewrite Ln, Nat.eqb_refl. cbn [snd]. now apply decompose_regroup.
+Qed.
+
 Section Stmt.
   Variable num : sname -> nat.
 
-  (* binding a translated value to a name *)
+  (* binding a translated value (nested as its type) to a name *)
   Lemma bind_res_sound rho G V x r v :
-    env_ok num rho G V -> env_canon G -> sem rho r v -> res_guard num G x r = true ->
+    env_ok num rho G V -> env_canon G -> env_tyok G -> sem rho r v ->
+    map fst (decompose [x] (snd r)) = arg_names [x] (fst r) ->
+    res_guard num G x r = true ->
     let ds := decompose [x] (snd r) in
     let rho' := run_defs rho (numbered num ds) in
     env_ok num rho' (bind G x (fst r, map fst ds)) (bind V x v)
-    /\ env_canon (bind G x (fst r, map fst ds)).
+    /\ env_canon (bind G x (fst r, map fst ds)) /\ env_tyok (bind G x (fst r, map fst ds)).
   Proof.
-    intros Hok Hcan Hs Hg ds rho'. unfold res_guard in Hg. fold ds in Hg.
+    intros Hok Hcan Htok Hs Hnames Hg. cbv zeta. unfold res_guard in Hg. cbv zeta in Hg.
+    set (ds := decompose [x] (snd r)) in *. set (rho' := run_defs rho (numbered num ds)).
     apply andb_true_iff in Hg as [Hg Hfresh]. apply andb_true_iff in Hg as [Hg Hnd].
-    apply andb_true_iff in Hg as [Hct Hseq].
-    destruct (run_defs_seq _ rho Hseq Hnd) as [A B]. fold rho' in A, B.
-    split.
+    apply andb_true_iff in Hg as [Hty Hseq].
+    destruct (run_defs_seq _ rho Hseq Hnd) as [A B]. subst rho' ds.
+    split; [|split].
     - intros y t bv Hy. rewrite lookup_bind in Hy. rewrite lookup_bind. destruct (Nat.eqb_spec y x) as [->|Hyx].
       + injection Hy as <- <-. exists v. split; [reflexivity|].
+        set (ds := decompose [x] (snd r)) in *. set (rho' := run_defs rho (numbered num ds)) in *.
         assert (E : map (rbit num rho') (map fst ds) = map (beval rho) (flat (snd r))); [|rewrite E; exact Hs].
         rewrite <- (decompose_snd (snd r) [x]). fold ds. rewrite !map_map.
         apply map_ext_in. intros d Hd. unfold numbered in B. rewrite Forall_map in B.
@@ -1488,38 +1820,52 @@ Section Stmt.
         specialize (Hfresh _ (lookup_in _ _ _ Hy)). cbn [fst snd] in Hfresh.
         apply orb_true_iff in Hfresh as [Hf|Hf]; [apply Nat.eqb_eq in Hf; congruence|].
         rewrite forallb_forall in Hf. specialize (Hf s Hin). apply negb_true_iff in Hf.
-        intros Hin'. assert (existsb (Nat.eqb (num s)) (map fst (numbered num ds)) = true); [|congruence].
+        intros Hin'. refine (eq_true_false_abs _ _ Hf).
         apply existsb_exists. exists (num s). split; [exact Hin'|apply Nat.eqb_refl].
     - intros y t bv Hy. rewrite lookup_bind in Hy. destruct (Nat.eqb_spec y x) as [->|Hyx].
-      + injection Hy as <- <-. unfold canon_tree in Hct. now apply snames_eqb_true in Hct.
+      + injection Hy as <- <-. exact Hnames.
       + now apply Hcan in Hy.
+    - intros y t bv Hy. rewrite lookup_bind in Hy. destruct (Nat.eqb_spec y x) as [->|Hyx].
+      + injection Hy as <- <-. exact Hty.
+      + now apply Htok in Hy.
   Qed.
 
   Theorem trans_stmt_sound rho G V rt s ds G' V' :
-    env_ok num rho G V -> env_canon G -> stmt_guard num G rt s = true ->
+    env_ok num rho G V -> env_canon G -> env_tyok G -> stmt_guard num G rt s = true ->
     trans_stmt num G rt s = Some (ds, G') -> eval_stmt V rt s = Some V' ->
-    env_ok num (run_defs rho (numbered num ds)) G' V' /\ env_canon G'.
+    env_ok num (run_defs rho (numbered num ds)) G' V' /\ env_canon G' /\ env_tyok G'.
   Proof.
-    intros Hok Hcan Hg Ht Hv. destruct s as [x e|e|e|]; cbn [trans_stmt eval_stmt stmt_guard] in *.
+    intros Hok Hcan Htok Hg Ht Hv. destruct s as [x e|e|e|]; cbn [trans_stmt eval_stmt stmt_guard] in *.
     - (* Assign *)
-      apply andb_true_iff in Hg as [Hsc Hg]. unfold trans_assign in Ht.
-      destruct (trans_exp num G e) as [[t tr]|] eqn:Et; [|discriminate]. injection Ht as <- <-.
+      unfold trans_assign in Ht.
+      destruct (trans_exp num G e) as [r0|] eqn:Et; [|discriminate]. injection Ht as <- <-.
       apply option_map_some in Hv as (v & Hv & ->).
-      pose proof (trans_exp_sound num rho G V e _ v Hok Hcan Hsc Et Hv) as Hs.
-      exact (bind_res_sound rho G V x (t, tr) v Hok Hcan Hs Hg).
+      pose proof (trans_exp_sound num rho G V e _ v Hok Hcan Htok Et Hv) as Hs.
+      pose proof (trans_exp_wf num rho G V Hok Hcan Htok e _ v Et Hv) as W.
+      assert (Ok : ty_ok (fst r0) = true).
+      { unfold res_guard in Hg. rewrite regroup_value_type in Hg.
+        apply andb_true_iff in Hg as [Hg _]. apply andb_true_iff in Hg as [Hg _]. now apply andb_true_iff in Hg as [Hg _]. }
+      pose proof (regroup_canon rho x r0 v Hs W Ok) as Hn. rewrite <- (regroup_value_type r0) in Hn.
+      exact (bind_res_sound rho G V x (regroup_value r0) v Hok Hcan Htok (regroup_value_sem rho _ _ Hs) Hn Hg).
     - (* Return *)
-      apply andb_true_iff in Hg as [Hsc Hg]. unfold trans_return in Ht.
+      unfold trans_return in Ht.
       apply obind_some in Ht as (r0 & Et & Ht). apply obind_some in Ht as (r1 & Ec & Ht).
       rewrite Et in Hg. cbn [obind] in Hg. rewrite Ec in Hg.
       destruct (lookup G ret_id); [discriminate|]. injection Ht as <- <-.
       apply obind_some in Hv as (v & Hv & Hv'). apply obind_some in Hv' as (v' & Hc & Hv').
       destruct (lookup V ret_id); [discriminate|]. injection Hv' as <-.
-      pose proof (trans_exp_sound num rho G V e _ v Hok Hcan Hsc Et Hv) as Hs.
+      pose proof (trans_exp_sound num rho G V e _ v Hok Hcan Htok Et Hv) as Hs.
+      pose proof (trans_exp_wf num rho G V Hok Hcan Htok e _ v Et Hv) as W.
       destruct (ret_coerce_sound rho rt r0 v r1 v' Hs Ec Hc) as [Hs1 _].
-      exact (bind_res_sound rho G V ret_id (ret_regroup r1) v' Hok Hcan (ret_regroup_sem rho _ _ Hs1) Hg).
+      pose proof (ret_coerce_wf rt r0 r1 W Ec) as W1.
+      assert (Ok : ty_ok (fst r1) = true).
+      { unfold res_guard in Hg. rewrite regroup_value_type in Hg.
+        apply andb_true_iff in Hg as [Hg _]. apply andb_true_iff in Hg as [Hg _]. now apply andb_true_iff in Hg as [Hg _]. }
+      pose proof (regroup_canon rho ret_id r1 v' Hs1 W1 Ok) as Hn. rewrite <- (regroup_value_type r1) in Hn.
+      exact (bind_res_sound rho G V ret_id (regroup_value r1) v' Hok Hcan Htok (regroup_value_sem rho _ _ Hs1) Hn Hg).
     - (* Expr *)
       destruct (trans_exp num G e); [|discriminate]. injection Ht as <- <-.
-      apply option_map_some in Hv as (v & _ & ->). now split.
+      apply option_map_some in Hv as (v & _ & ->). now repeat split.
     - discriminate.
   Qed.
 
@@ -1527,19 +1873,19 @@ Section Stmt.
   Proof. unfold run_defs. apply fold_left_app. Qed.
 
   Theorem trans_body_sound : forall body rho G V rt ds G' V',
-    env_ok num rho G V -> env_canon G -> body_guard num G rt body = true ->
+    env_ok num rho G V -> env_canon G -> env_tyok G -> body_guard num G rt body = true ->
     trans_body num G rt body = Some (ds, G') -> eval_body V rt body = Some V' ->
-    env_ok num (run_defs rho (numbered num ds)) G' V' /\ env_canon G'.
+    env_ok num (run_defs rho (numbered num ds)) G' V' /\ env_canon G' /\ env_tyok G'.
   Proof.
-    induction body as [|s body IH]; intros rho G V rt ds G' V' Hok Hcan Hg Ht Hv.
-    - cbn in Ht, Hv. injection Ht as <- <-. injection Hv as <-. now split.
+    induction body as [|s body IH]; intros rho G V rt ds G' V' Hok Hcan Htok Hg Ht Hv.
+    - cbn in Ht, Hv. injection Ht as <- <-. injection Hv as <-. now repeat split.
     - cbn [trans_body eval_body body_guard] in *. apply andb_true_iff in Hg as [Hg1 Hg2].
       apply obind_some in Ht as ([ds1 G1] & Ht1 & Ht). apply obind_some in Ht as ([ds2 G2] & Ht2 & Ht).
       cbn [fst snd] in *. injection Ht as <- <-. apply obind_some in Hv as (V1 & Hv1 & Hv2).
       rewrite Ht1 in Hg2. cbn [snd] in Hg2.
-      destruct (trans_stmt_sound rho G V rt s ds1 G1 V1 Hok Hcan Hg1 Ht1 Hv1) as [Hok1 Hcan1].
+      destruct (trans_stmt_sound rho G V rt s ds1 G1 V1 Hok Hcan Htok Hg1 Ht1 Hv1) as (Hok1 & Hcan1 & Htok1).
       unfold numbered. rewrite map_app, run_defs_app. fold (numbered num ds1). fold (numbered num ds2).
-      exact (IH _ _ _ _ _ _ _ Hok1 Hcan1 Hg2 Ht2 Hv2).
+      exact (IH _ _ _ _ _ _ _ Hok1 Hcan1 Htok1 Hg2 Ht2 Hv2).
   Qed.
 End Stmt.
 
@@ -1596,7 +1942,7 @@ Proof.
     cbn [fst snd] in *. injection Ht as <- <-. apply obind_some in Hv as (V1 & Hv1 & Hv2).
     assert (Step : dom_sub V1 G1 /\ (forall v, lookup V1 ret_id = Some v -> type_of v = rt)).
     { destruct s as [x e|e|e|]; cbn [trans_stmt eval_stmt] in Ht1, Hv1.
-      - unfold trans_assign in Ht1. destruct (trans_exp num G e) as [[t tr]|]; [|discriminate]. injection Ht1 as <- <-.
+      - unfold trans_assign in Ht1. destruct (trans_exp num G e) as [r0|]; [|discriminate]. injection Ht1 as <- <-.
         apply option_map_some in Hv1 as (v & _ & ->). split.
         + intros y vy. rewrite !lookup_bind. destruct (Nat.eqb y x); [intros _; eauto|apply Hdom].
         + intros vy. rewrite lookup_bind. apply negb_true_iff in Hw1. rewrite Nat.eqb_sym in Hw1. rewrite Hw1. apply Hret.
@@ -1612,9 +1958,18 @@ Proof.
     destruct Step as [D1 R1]. exact (IH _ _ _ _ _ _ Hw2 D1 R1 Ht2 Hv2).
 Qed.
 
-(* no argument is called _ret *)
+(* no argument is called _ret; no argument type has a one-bit sized / tuple component *)
 Definition wf_args (args : list (ident * ty)) : bool :=
-  forallb (fun a => negb (Nat.eqb (fst a) ret_id)) args.
+  forallb (fun a => negb (Nat.eqb (fst a) ret_id)) args && forallb (fun a => ty_ok (snd a)) args.
+
+Lemma arg_env_tyok args : forallb (fun a : ident * ty => ty_ok (snd a)) args = true -> env_tyok (arg_env args).
+Proof.
+  induction args as [|[x t] args IH]; intros H y ty bv Hy; [discriminate|].
+  cbn [forallb snd] in H. apply andb_true_iff in H as [H1 H2].
+  cbn [arg_env map lookup fst snd] in Hy. destruct (Nat.eqb x y).
+  - now injection Hy as <- <-.
+  - now apply (IH H2 y ty bv).
+Qed.
 
 Lemma lookup_combine_none args (vs : list value) x :
   forallb (fun a : ident * ty => negb (Nat.eqb (fst a) x)) args = true ->
@@ -1634,14 +1989,15 @@ Theorem trans_fun_sound num rho args rt body vs lf v :
   lf_ret lf = (rt, arg_names [ret_id] rt) /\
   decode rt (map (fun s => run_defs rho (numbered num (lf_defs lf)) (num s)) (arg_names [ret_id] rt)) = Some v.
 Proof.
-  intros Ht Hv Hwa Hwf Hg Henc. unfold trans_fun in Ht.
+  intros Ht Hv Hwa Hwf Hg Henc. unfold wf_args in Hwa. apply andb_true_iff in Hwa as [Hwa Hwt].
+  unfold trans_fun in Ht.
   destruct (negb (distinct_ids (map fst args))); [discriminate|].
   apply option_map_some in Ht as ([ds G'] & Hb & ->). cbn [lf_ret lf_defs fst snd]. split; [reflexivity|].
   unfold eval_fun in Hv. destruct (negb (Nat.eqb (length args) (length vs))) eqn:Hlen; [discriminate|].
   destruct (negb (forallb _ (combine args vs))); [discriminate|].
   apply obind_some in Hv as (V' & Hev & Hret).
-  destruct (trans_body_sound num body rho _ _ rt ds G' V' (arg_env_ok num rho args vs Henc) (arg_env_canon args) Hg Hb Hev)
-    as [Hok Hcan].
+  destruct (trans_body_sound num body rho _ _ rt ds G' V' (arg_env_ok num rho args vs Henc) (arg_env_canon args)
+              (arg_env_tyok args Hwt) Hg Hb Hev) as (Hok & Hcan & _).
   assert (Hdom0 : dom_sub (combine (map fst args) vs) (arg_env args)).
   { apply negb_false_iff, Nat.eqb_eq in Hlen. clear -Hlen. revert vs Hlen.
     induction args as [|[x t] args IH]; intros [|v0 vs] Hlen y vy Hy; try discriminate.
@@ -1738,60 +2094,57 @@ Proof. now split. Qed.
 Definition tab_num (tab : list (sname * nat)) (d : nat) : sname -> nat :=
   fun s => match find (fun p => sname_eqb (fst p) s) tab with Some p => snd p | None => d end.
 
-(* (1) soundness without the side condition on subscripts: a subscript that selects a
-   tuple-typed element is translated into ONE fabricated symbol ("a.0") typed as the tuple *)
+(* (1) FIXED in /repo (fa1d0be): a subscript selecting a tuple-typed element is the flat list of
+   the element's bits: the former counterexample is an instance of trans_exp_sound *)
 Definition ex_sub_G : env := arg_env [(1%nat, TTuple [TTuple [TBool; TQint 2]; TBool])].
 Definition ex_sub_V : venv := [(1%nat, VT [VT [VB true; VI 2 1]; VB false])].
 Definition ex_sub_num := tab_num [([1;0;0], 0); ([1;0;1;0], 1); ([1;0;1;1], 2); ([1;1], 3)]%nat 9.
 Definition ex_sub_rho : nat -> bool := fun k => Nat.eqb k 0 || Nat.eqb k 1.
 
-Lemma ex_sub_env : env_ok ex_sub_num ex_sub_rho ex_sub_G ex_sub_V /\ env_canon ex_sub_G.
+Lemma ex_sub_env : env_ok ex_sub_num ex_sub_rho ex_sub_G ex_sub_V /\ env_canon ex_sub_G /\ env_tyok ex_sub_G.
 Proof.
-  split; [|apply arg_env_canon].
+  split; [|split; [apply arg_env_canon|apply arg_env_tyok; reflexivity]].
   apply (arg_env_ok ex_sub_num ex_sub_rho [(1%nat, TTuple [TTuple [TBool; TQint 2]; TBool])]
                     [VT [VT [VB true; VI 2 1]; VB false]]).
   constructor; [vm_compute; reflexivity|constructor].
 Qed.
 
-Lemma subscript_of_tuple_refuted :
-  exists num rho G V e r v, env_ok num rho G V /\ env_canon G /\
-    trans_exp num G e = Some r /\ eval_exp V e = Some v /\ den rho r <> Some v /\ sub_scalar G e = false.
+Lemma subscript_of_tuple_sound num rho G V x p r v :
+  env_ok num rho G V -> env_canon G -> env_tyok G ->
+  trans_exp num G (ESub x p) = Some r -> eval_exp V (ESub x p) = Some v ->
+  den rho r = Some v /\ type_of v = fst r.
 Proof.
-  exists ex_sub_num, ex_sub_rho, ex_sub_G, ex_sub_V, (ESub 1%nat [0%nat]). do 2 eexists.
-  destruct ex_sub_env as [A B]. refine (conj A (conj B (conj _ (conj _ (conj _ _))))).
-  - vm_compute. reflexivity.
-  - vm_compute. reflexivity.
-  - vm_compute. discriminate.
-  - reflexivity.
+  intros H1 H2 H3 H4 H5. pose proof (trans_exp_sound num rho G V _ r v H1 H2 H3 H4 H5) as H.
+  split; [exact H|]. now apply decode_type in H.
 Qed.
 
-(* (2) statements without the side condition on the shape of the assigned value: a copy of a
-   tuple-typed name is bound with FLAT bit names, a later subscript reads the names its type
-   gives: `d = a; return d[1]` with a: Tuple[Qint[2], bool] returns bit 1 of a[0] *)
+(* (2) FIXED in /repo (87c4060): a tuple-typed value is bound with the bit names of its type.
+   `d = a; return d[1]` with a: Tuple[Qint[2], bool]: inside the guards, for EVERY argument value *)
 Definition ex_copy_args : list (ident * ty) := [(1%nat, TTuple [TQint 2; TBool])].
 Definition ex_copy_body : list pstmt := [SAssign 2%nat (EName 1%nat); SReturn (ESub 2%nat [1%nat])].
 Definition ex_copy_num :=
-  tab_num [([1;0;0], 0); ([1;0;1], 1); ([1;1], 2); ([2;0], 4); ([2;1], 5); ([2;2], 6); ([0], 7)]%nat 3.
-Definition ex_copy_rho : nat -> bool := fun k => Nat.eqb k 1.      (* a = (2, False) *)
+  tab_num [([1;0;0], 0); ([1;0;1], 1); ([1;1], 2); ([2;0;0], 4); ([2;0;1], 5); ([2;1], 6); ([0], 7)]%nat 3.
 
-Lemma tuple_copy_refuted :
-  exists num rho args rt body vs lf v,
-    trans_fun num args rt body = Some lf /\ eval_fun args rt body vs = Some v /\
-    wf_args args = true /\ wf_body body = true /\ args_encoded num rho args vs /\
-    body_guard num (arg_env args) rt body = false /\
-    decode rt (map (fun s => run_defs rho (numbered num (lf_defs lf)) (num s)) (arg_names [ret_id] rt)) <> Some v.
+Lemma tuple_copy_sound rho vs v :
+  args_encoded ex_copy_num rho ex_copy_args vs -> eval_fun ex_copy_args TBool ex_copy_body vs = Some v ->
+  exists lf, trans_fun ex_copy_num ex_copy_args TBool ex_copy_body = Some lf /\
+    map fst (lf_defs lf) = [[2; 0; 0]; [2; 0; 1]; [2; 1]; [0]]%nat /\
+    decode TBool (map (fun s => run_defs rho (numbered ex_copy_num (lf_defs lf)) (ex_copy_num s))
+                      (arg_names [ret_id] TBool)) = Some v.
 Proof.
-  exists ex_copy_num, ex_copy_rho, ex_copy_args, TBool, ex_copy_body, [VT [VI 2 2; VB false]]. do 2 eexists.
-  refine (conj _ (conj _ (conj _ (conj _ (conj _ (conj _ _)))))); try (vm_compute; reflexivity).
-  - constructor; [vm_compute; reflexivity|constructor].
-  - vm_compute. discriminate.
+  intros Henc Hev.
+  destruct (trans_fun ex_copy_num ex_copy_args TBool ex_copy_body) as [lf|] eqn:E; [|vm_compute in E; discriminate].
+  exists lf. split; [reflexivity|]. split.
+  - vm_compute in E. injection E as <-. reflexivity.
+  - refine (proj2 (trans_fun_sound ex_copy_num rho ex_copy_args TBool ex_copy_body vs lf v E Hev _ _ _ Henc));
+      vm_compute; reflexivity.
 Qed.
 
 (* (3) "an accepted program has a meaning" is false: operands of different kinds are combined on
    their raw bit lists (Qint ^ Qchar), a value of another kind is cropped to the declared return
    type (`return 'a'` where Qint[2] is declared) *)
 Lemma accepted_without_meaning :
-  (exists num rho G V e r, env_ok num rho G V /\ env_canon G /\ sub_scalar G e = true /\
+  (exists num rho G V e r, env_ok num rho G V /\ env_canon G /\ env_tyok G /\
      trans_exp num G e = Some r /\ eval_exp V e = None)
   /\ (exists num args rt body lf, trans_fun num args rt body = Some lf /\
         forall vs, eval_fun args rt body vs = None).
@@ -1801,7 +2154,7 @@ Proof.
     set (num := fun s : sname => match s with [1; i] => i | [2; i] => 8 + i | _ => 99 end%nat).
     exists num, (fun _ => false), (arg_env args), [(1%nat, VI 8 0); (2%nat, VC 0)],
            (EBin AoXor (EName 1%nat) (EName 2%nat)). eexists.
-    refine (conj _ (conj (arg_env_canon args) (conj eq_refl (conj _ eq_refl)))).
+    refine (conj _ (conj (arg_env_canon args) (conj (arg_env_tyok args eq_refl) (conj _ eq_refl)))).
     + apply (arg_env_ok num (fun _ => false) args [VI 8 0; VC 0]).
       constructor; [vm_compute; reflexivity|]. constructor; [vm_compute; reflexivity|constructor].
     + vm_compute. reflexivity.
@@ -1837,18 +2190,6 @@ Fixpoint frag (e : pexp) : bool :=
   | _ => false
   end.
 
-Lemma frag_sub_scalar G : forall e, frag e = true -> sub_scalar G e = true.
-Proof.
-  induction e as [x|x p|op l IH|op a IHa|c t f IHc IHt IHf|c|l|l IH|op a b IHa IHb|op a b IHa IHb|t c|a IHa|a IHa|]
-    using pexp_ind2; cbn [frag sub_scalar]; intros H; try reflexivity; try discriminate.
-  - rewrite forallb_forall in H |- *. rewrite Forall_forall in IH. intros x Hx. apply IH; [exact Hx|now apply H].
-  - now apply IHa.
-  - apply andb_true_iff in H as [H H3]. apply andb_true_iff in H as [H1 H2]. now rewrite IHc, IHt, IHf.
-  - apply andb_true_iff in H as [H1 H2]. now rewrite IHa, IHb.
-  - destruct op; try discriminate; apply andb_true_iff in H as [H1 H2]; rewrite (IHa H1); try (now rewrite IHb);
-      destruct b; try discriminate; reflexivity.
-Qed.
-
 Lemma ib_kind v : ib_ty (type_of v) = true -> (exists b, v = VB b) \/ (exists w n, v = VI w n /\ (0 < w)%nat).
 Proof.
   destruct v as [b|w n| | |]; cbn; try discriminate; intros H; [left; eauto|right].
@@ -1867,6 +2208,7 @@ Section Total.
   Variables (G : env) (V : venv).
   Hypothesis Hok : env_ok num rho G V.
   Hypothesis Hcan : env_canon G.
+  Hypothesis Htok : env_tyok G.
   Hypothesis Hib : ib_env G.
 
   Definition total_at (e : pexp) : Prop :=
@@ -1874,7 +2216,7 @@ Section Total.
     exists v, eval_exp V e = Some v /\ ib_ty (type_of v) = true.
 
   Lemma total_sem e r v : frag e = true -> trans_exp num G e = Some r -> eval_exp V e = Some v -> sem rho r v.
-  Proof. intros F Ht Hv. exact (trans_exp_sound num rho G V e r v Hok Hcan (frag_sub_scalar G e F) Ht Hv). Qed.
+  Proof. intros F Ht Hv. exact (trans_exp_sound num rho G V e r v Hok Hcan Htok Ht Hv). Qed.
 
   Lemma total_list l : Forall total_at l -> forallb frag l = true ->
     forall rs, trans_list num G l = Some rs ->
@@ -2045,11 +2387,12 @@ End Total.
 
 (* an accepted expression of the fragment has a value, and denotes it *)
 Theorem trans_exp_total num rho G V e r :
-  env_ok num rho G V -> env_canon G -> ib_env G -> frag e = true -> trans_exp num G e = Some r ->
+  env_ok num rho G V -> env_canon G -> env_tyok G -> ib_env G -> frag e = true -> trans_exp num G e = Some r ->
   exists v, eval_exp V e = Some v /\ den rho r = Some v.
 Proof.
-  intros Hok Hcan Hib F Ht. destruct (trans_exp_total_at num rho G V Hok Hcan Hib e F r Ht) as (v & Hv & _).
-  exists v. split; [exact Hv|]. exact (trans_exp_sound num rho G V e r v Hok Hcan (frag_sub_scalar G e F) Ht Hv).
+  intros Hok Hcan Htok Hib F Ht.
+  destruct (trans_exp_total_at num rho G V Hok Hcan Htok Hib e F r Ht) as (v & Hv & _).
+  exists v. split; [exact Hv|]. exact (trans_exp_sound num rho G V e r v Hok Hcan Htok Ht Hv).
 Qed.
 
 Lemma arg_env_ib args : forallb (fun a : ident * ty => ib_ty (snd a)) args = true -> ib_env (arg_env args).
@@ -2065,13 +2408,14 @@ Qed.
 (* statements collected for Prop_C01_texp.v                            *)
 (* ================================================================== *)
 Lemma trans_exp_type num rho G V e r v :
-  env_ok num rho G V -> env_canon G -> sub_scalar G e = true ->
+  env_ok num rho G V -> env_canon G -> env_tyok G ->
   trans_exp num G e = Some r -> eval_exp V e = Some v ->
-  type_of v = fst r /\ length (flat (snd r)) = ty_size (fst r).
+  type_of v = fst r /\ length (flat (snd r)) = ty_size (fst r) /\ wf_res r.
 Proof.
   intros H1 H2 H3 H4 H5.
   pose proof (trans_exp_sound num rho G V e r v H1 H2 H3 H4 H5) as H.
-  apply decode_type in H. rewrite map_length in H. exact H.
+  apply decode_type in H. rewrite map_length in H. destruct H as [A B].
+  repeat split; try assumption. exact (trans_exp_wf num rho G V H1 H2 H3 e r v H4 H5).
 Qed.
 
 Lemma rejects_constants num G :
